@@ -451,10 +451,10 @@ func runMBRCase(c *tblCase, d *memdev.Dev) (sig, msg, outcome string) {
 func gptDisks(quick bool) (out []tblCase) {
 	for _, lss := range []int{512, 4096} {
 		minSectors := int64(2 + 2*(128*128/lss) + 1 + 1)
-		sizes := []int64{minSectors * int64(lss), 10 << 20, 2<<40 + 1<<20}
+		sizes := []int64{minSectors * int64(lss), 10 << 20, 2<<40 + 1<<20, 3<<20 + 777} // the last one is not a whole number of sectors
 		for _, sz := range sizes {
 			for _, pm := range []bool{true, false} {
-				if quick && (!pm && sz != 10<<20) {
+				if quick && (!pm && sz != 10<<20 && sz != 3<<20+777) {
 					continue
 				}
 				out = append(out, tblCase{Kind: "gpt", DiskSize: sz, LSS: lss, PMBR: pm, DiskGUID: fixedDiskGUID})
